@@ -245,7 +245,7 @@ func (e *encoderJsonBytes) kArrayWMbs(rv reflect.Value, ti *typeInfo, isSlice bo
 	e.mapStart(l >> 1)
 
 	var fn *encFnJsonBytes
-	builtin := ti.tielem.flagEncBuiltin
+	builtin := e.builtinElem(ti.tielem, ti.elemkind)
 	if !builtin {
 		fn = e.kSeqFn(ti.elem)
 	}
@@ -290,14 +290,14 @@ func (e *encoderJsonBytes) kArrayW(rv reflect.Value, ti *typeInfo, isSlice bool)
 	e.arrayStart(l)
 
 	var fn *encFnJsonBytes
-	if !ti.tielem.flagEncBuiltin {
+	builtin := e.builtinElem(ti.tielem, ti.elemkind)
+	if !builtin {
 		fn = e.kSeqFn(ti.elem)
 	}
 
 	j := 0
 	e.c = containerArrayElem
 	e.e.WriteArrayElem(true)
-	builtin := ti.tielem.flagEncBuiltin
 	for {
 		rvv := rvArrayIndex(rv, j, ti, isSlice)
 		if builtin {
@@ -435,7 +435,7 @@ func (e *encoderJsonBytes) kStructSimple(f *encFnInfo, rv reflect.Value) {
 		for j, si = range tisfi {
 			e.c = containerArrayElem
 			e.e.WriteArrayElem(j == 0)
-			if si.encBuiltin {
+			if e.builtinField(si) {
 				e.encodeIB(rv2i(si.fieldNoAlloc(rv, true)))
 			} else {
 				e.encodeValue(si.fieldNoAlloc(rv, !chkCirRef), nil)
@@ -457,7 +457,7 @@ func (e *encoderJsonBytes) kStructSimple(f *encFnInfo, rv reflect.Value) {
 			e.e.WriteMapElemKey(j == 0)
 			e.e.EncodeStringNoEscape4Json(si.encName)
 			e.mapElemValue()
-			if si.encBuiltin {
+			if e.builtinField(si) {
 				e.encodeIB(rv2i(si.fieldNoAlloc(rv, true)))
 			} else {
 				e.encodeValue(si.fieldNoAlloc(rv, !chkCirRef), nil)
@@ -511,7 +511,7 @@ func (e *encoderJsonBytes) kStruct(f *encFnInfo, rv reflect.Value) {
 					continue
 				}
 			} else {
-				kv.r = si.fieldNoAlloc(rv, si.encBuiltin || !chkCirRef)
+				kv.r = si.fieldNoAlloc(rv, !chkCirRef || e.builtinField(si))
 			}
 			kv.v = si
 			fkvs[newlen] = kv
@@ -545,7 +545,7 @@ func (e *encoderJsonBytes) kStruct(f *encFnInfo, rv reflect.Value) {
 			for j = 0; j < newlen; j++ {
 				kv = fkvs[j]
 				mf2w[j] = encStructFieldObj{kv.v.encName, kv.r, nil, true,
-					!kv.v.encNameEscape4Json, kv.v.encBuiltin}
+					!kv.v.encNameEscape4Json, e.builtinField(kv.v)}
 			}
 			for _, v := range mf2s {
 				mf2w[j] = encStructFieldObj{v.v, reflect.Value{}, v.i, false, false, false}
@@ -586,7 +586,7 @@ func (e *encoderJsonBytes) kStruct(f *encFnInfo, rv reflect.Value) {
 					e.kStructFieldKey(keytyp, kv.v.encName)
 				}
 				e.mapElemValue()
-				if kv.v.encBuiltin {
+				if e.builtinField(kv.v) {
 					e.encodeIB(rv2i(baseRVRV(kv.r)))
 				} else {
 					e.encodeValue(kv.r, nil)
@@ -618,7 +618,7 @@ func (e *encoderJsonBytes) kStruct(f *encFnInfo, rv reflect.Value) {
 					kv.r = reflect.Value{}
 				}
 			} else {
-				kv.r = si.fieldNoAlloc(rv, si.encBuiltin || !chkCirRef)
+				kv.r = si.fieldNoAlloc(rv, !chkCirRef || e.builtinField(si))
 			}
 			kv.v = si
 			fkvs[i] = kv
@@ -636,7 +636,7 @@ func (e *encoderJsonBytes) kStruct(f *encFnInfo, rv reflect.Value) {
 			kv = fkvs[j]
 			if !kv.r.IsValid() {
 				e.e.EncodeNil()
-			} else if kv.v.encBuiltin {
+			} else if e.builtinField(kv.v) {
 				e.encodeIB(rv2i(baseRVRV(kv.r)))
 			} else {
 				e.encodeValue(kv.r, nil)
@@ -702,8 +702,8 @@ func (e *encoderJsonBytes) kMap(f *encFnInfo, rv reflect.Value) {
 	var it mapIter
 	mapRange(&it, rv, rvk, rvv, true)
 
-	kbuiltin := f.ti.tikey.flagEncBuiltin
-	vbuiltin := f.ti.tielem.flagEncBuiltin
+	kbuiltin := e.builtinElem(f.ti.tikey, f.ti.keykind)
+	vbuiltin := e.builtinElem(f.ti.tielem, f.ti.elemkind)
 	for j := 0; it.Next(); j++ {
 		rv = it.Key()
 		e.c = containerMapKey
@@ -4461,7 +4461,7 @@ func (e *encoderJsonIO) kArrayWMbs(rv reflect.Value, ti *typeInfo, isSlice bool)
 	e.mapStart(l >> 1)
 
 	var fn *encFnJsonIO
-	builtin := ti.tielem.flagEncBuiltin
+	builtin := e.builtinElem(ti.tielem, ti.elemkind)
 	if !builtin {
 		fn = e.kSeqFn(ti.elem)
 	}
@@ -4506,14 +4506,14 @@ func (e *encoderJsonIO) kArrayW(rv reflect.Value, ti *typeInfo, isSlice bool) {
 	e.arrayStart(l)
 
 	var fn *encFnJsonIO
-	if !ti.tielem.flagEncBuiltin {
+	builtin := e.builtinElem(ti.tielem, ti.elemkind)
+	if !builtin {
 		fn = e.kSeqFn(ti.elem)
 	}
 
 	j := 0
 	e.c = containerArrayElem
 	e.e.WriteArrayElem(true)
-	builtin := ti.tielem.flagEncBuiltin
 	for {
 		rvv := rvArrayIndex(rv, j, ti, isSlice)
 		if builtin {
@@ -4651,7 +4651,7 @@ func (e *encoderJsonIO) kStructSimple(f *encFnInfo, rv reflect.Value) {
 		for j, si = range tisfi {
 			e.c = containerArrayElem
 			e.e.WriteArrayElem(j == 0)
-			if si.encBuiltin {
+			if e.builtinField(si) {
 				e.encodeIB(rv2i(si.fieldNoAlloc(rv, true)))
 			} else {
 				e.encodeValue(si.fieldNoAlloc(rv, !chkCirRef), nil)
@@ -4673,7 +4673,7 @@ func (e *encoderJsonIO) kStructSimple(f *encFnInfo, rv reflect.Value) {
 			e.e.WriteMapElemKey(j == 0)
 			e.e.EncodeStringNoEscape4Json(si.encName)
 			e.mapElemValue()
-			if si.encBuiltin {
+			if e.builtinField(si) {
 				e.encodeIB(rv2i(si.fieldNoAlloc(rv, true)))
 			} else {
 				e.encodeValue(si.fieldNoAlloc(rv, !chkCirRef), nil)
@@ -4727,7 +4727,7 @@ func (e *encoderJsonIO) kStruct(f *encFnInfo, rv reflect.Value) {
 					continue
 				}
 			} else {
-				kv.r = si.fieldNoAlloc(rv, si.encBuiltin || !chkCirRef)
+				kv.r = si.fieldNoAlloc(rv, !chkCirRef || e.builtinField(si))
 			}
 			kv.v = si
 			fkvs[newlen] = kv
@@ -4761,7 +4761,7 @@ func (e *encoderJsonIO) kStruct(f *encFnInfo, rv reflect.Value) {
 			for j = 0; j < newlen; j++ {
 				kv = fkvs[j]
 				mf2w[j] = encStructFieldObj{kv.v.encName, kv.r, nil, true,
-					!kv.v.encNameEscape4Json, kv.v.encBuiltin}
+					!kv.v.encNameEscape4Json, e.builtinField(kv.v)}
 			}
 			for _, v := range mf2s {
 				mf2w[j] = encStructFieldObj{v.v, reflect.Value{}, v.i, false, false, false}
@@ -4802,7 +4802,7 @@ func (e *encoderJsonIO) kStruct(f *encFnInfo, rv reflect.Value) {
 					e.kStructFieldKey(keytyp, kv.v.encName)
 				}
 				e.mapElemValue()
-				if kv.v.encBuiltin {
+				if e.builtinField(kv.v) {
 					e.encodeIB(rv2i(baseRVRV(kv.r)))
 				} else {
 					e.encodeValue(kv.r, nil)
@@ -4834,7 +4834,7 @@ func (e *encoderJsonIO) kStruct(f *encFnInfo, rv reflect.Value) {
 					kv.r = reflect.Value{}
 				}
 			} else {
-				kv.r = si.fieldNoAlloc(rv, si.encBuiltin || !chkCirRef)
+				kv.r = si.fieldNoAlloc(rv, !chkCirRef || e.builtinField(si))
 			}
 			kv.v = si
 			fkvs[i] = kv
@@ -4852,7 +4852,7 @@ func (e *encoderJsonIO) kStruct(f *encFnInfo, rv reflect.Value) {
 			kv = fkvs[j]
 			if !kv.r.IsValid() {
 				e.e.EncodeNil()
-			} else if kv.v.encBuiltin {
+			} else if e.builtinField(kv.v) {
 				e.encodeIB(rv2i(baseRVRV(kv.r)))
 			} else {
 				e.encodeValue(kv.r, nil)
@@ -4918,8 +4918,8 @@ func (e *encoderJsonIO) kMap(f *encFnInfo, rv reflect.Value) {
 	var it mapIter
 	mapRange(&it, rv, rvk, rvv, true)
 
-	kbuiltin := f.ti.tikey.flagEncBuiltin
-	vbuiltin := f.ti.tielem.flagEncBuiltin
+	kbuiltin := e.builtinElem(f.ti.tikey, f.ti.keykind)
+	vbuiltin := e.builtinElem(f.ti.tielem, f.ti.elemkind)
 	for j := 0; it.Next(); j++ {
 		rv = it.Key()
 		e.c = containerMapKey
